@@ -281,6 +281,39 @@ def cache_phase(run, tier, workdir, binary):
     return drift
 
 
+def proof_phase(run, tier, workdir):
+    """C04, unbounded part: the cache invariants are an inductive invariant of an abstraction of Cache.tla for ANY set of
+    names and values (TLA+ proof system), and TLC checks that Cache.tla refines that abstraction."""
+    import re, subprocess, shutil, glob
+    pd = os.path.join(workdir, "proof")
+    os.makedirs(pd)
+    vlib.stage_specs(pd, ["CacheProof.tla", "Cache.tla", "MCCacheRefines.tla"])
+    if not shutil.which("tlapm"):
+        raise vlib.Infra("tlapm not found")
+    try:
+        p = subprocess.run(["tlapm", "--threads", "8", "--cleanfp", "CacheProof.tla"], cwd=pd, stdout=subprocess.PIPE, stderr=subprocess.STDOUT,
+                           text=True, timeout=900)
+    except subprocess.TimeoutExpired:
+        raise vlib.Infra("tlapm timed out")
+    m = re.search(r"All (\d+) obligations? proved", p.stdout)
+    if not m:
+        raise vlib.Infra("tlapm did not prove CacheProof.tla:\n" + p.stdout[-1500:])
+    n = int(m.group(1))
+    run.cov["obligations"] = n
+    run.cov["discharged"] = n
+    run.cov["checker_cmd"] = "tlapm --threads 8 --cleanfp CacheProof.tla"
+    run.cov["trusted_base"] = ["tlapm 1.6.0-pre back ends (SMT, Zenon, Isabelle, PTL)", "TLC for the refinement Cache.tla => CacheProof!Spec"]
+    stdlib = glob.glob("/opt/veriftools/tlapm/lib/tlapm/stdlib/TLAPS.tla")
+    if stdlib:
+        shutil.copy(stdlib[0], pd)
+    vlib.write_cfg(os.path.join(pd, "r.cfg"), constants=dict(Names="{1, 2}", MaxOps=5 if tier == "quick" else 6, CleanupOnError="TRUE"),
+                   spec="Spec", invariants=["AbsInv"], properties=["AbsSpec"], view="NoHist")
+    r = vlib.run_tlc(pd, "MCCacheRefines", "r.cfg", workers=4, timeout=1200, jvm=vlib.JVM_BIG)
+    run.add_model_run("refinement: Cache.tla => CacheProof!Spec (the abstraction with the proved inductive invariant, %d obligations)" % n, r)
+    if not r.ok:
+        raise vlib.Infra("Cache.tla does not refine CacheProof: %s" % r.violated)
+
+
 def run_check(prop, tier, replay=None):
     run = vlib.Run(prop, tier, "model_checking")
     rng = random.Random(run.seed * 7919 + hash(prop) % 1000)
@@ -310,6 +343,7 @@ def run_check(prop, tier, replay=None):
         if prop == "C04" and replay is None:
             def cache_job():
                 try:
+                    proof_phase(run, tier, workdir)
                     cache_res.append(cache_phase(run, tier, workdir, binary))
                 except Exception as e:
                     cache_res.append(e)
